@@ -221,6 +221,9 @@ pub struct GProgram {
     pub txs: Vec<GTx>,
     /// order of top-level definitions: 0 env,1 parties,2 policies,3 assets,4 types,5 aliases,6 txs
     pub top_order: Vec<u8>,
+    /// further top-level declarations, given as token lists and printed first (used by mutations that need a
+    /// declaration the generator's own vocabulary lacks, e.g. an alias of a primitive type)
+    pub raw_decls: Vec<Vec<String>>,
 }
 
 // ------------------------------------------------------------------------------------------
@@ -770,6 +773,11 @@ impl<'p> Printer<'p> {
 
     pub fn program(&mut self) {
         let prog = self.prog;
+        for d in &prog.raw_decls {
+            for tok in d {
+                self.t(tok);
+            }
+        }
         let mut order = prog.top_order.clone();
         for k in 0..7u8 {
             if !order.contains(&k) {
